@@ -125,10 +125,11 @@ func baseWeights() map[string]int {
 // C05: wait-list admission follows queue_limit and queue_strategy exactly.
 func TestC05(t *testing.T) {
 	cfg := &Cfg{Prop: "C05", MaxPipelines: 2, MaxTasks: 2, DelayPct: 35, ReplacePct: 40, CyclicPct: 0, ReservedPct: 0,
-		LimitChoices: []int{-1, 0, 1, 1, 2, 2, 3}, Weights: map[string]int{"schedule": 45, "cancel": 15, "finish": 22, "timer": 12, "hold": 2, "release": 4},
-		Armed: map[string]bool{"C05": true}}
+		LimitChoices: []int{-1, 0, 1, 1, 2, 2, 3}, Weights: map[string]int{"schedule": 45, "cancel": 15, "finish": 22, "timer": 12, "hold": 2, "release": 4, "reload": 4},
+		ReloadKinds: []string{"limit", "limit", "strategy", "conc", "delay"},
+		Armed:       map[string]bool{"C05": true}}
 	runHistories(t, histOpts{cfg: cfg, failPct: 15,
-		rule: "stateful rapid histories (schedule/cancel/finish/timer/hold) over generated definitions (concurrency 1-3, queue_limit unset/0/1/2/3, append/replace, delay/no delay); every ScheduleAsync outcome compared with the decision table of the statement computed from the reported running/waiting jobs; non-trivial = a request decided while the pipeline had a running or waiting job and the history contains a cancel of a waiting job or a rejection or a replacement; distinct by action trace",
+		rule: "stateful rapid histories (schedule/cancel/finish/timer/hold) over generated definitions (concurrency 1-3, queue_limit unset/0/1/2/3, append/replace, delay/no delay); every ScheduleAsync outcome compared with the decision table of the statement computed from the reported running/waiting jobs and the definition in force (a few reloads change queue_limit, strategy, concurrency or delay while jobs run and wait, so that the table is also entered from states the new definition could not have produced); non-trivial = a request decided while the pipeline had a running or waiting job and the history contains a cancel of a waiting job or a rejection or a replacement; distinct by action trace",
 		nontrivial: func(c map[string]int) bool {
 			return c["schedule-with-load"] > 0 && (c["cancel:waiting"] > 0 || c["schedule:reject"] > 0 || c["schedule:replace"] > 0)
 		}})
@@ -171,10 +172,10 @@ func TestC03(t *testing.T) {
 // C04: an acknowledged cancel always takes effect and is never lost.
 func TestC04(t *testing.T) {
 	cfg := &Cfg{Prop: "C04", MaxPipelines: 2, MaxTasks: 4, DelayPct: 30, ReplacePct: 15, AllowFailPct: 25, ContinuePct: 30,
-		LimitChoices: []int{-1, -1, 2, 3}, Weights: map[string]int{"schedule": 26, "cancel": 22, "finish": 28, "timer": 8, "hold": 10, "release": 8},
+		LimitChoices: []int{-1, -1, 2, 3}, Weights: map[string]int{"schedule": 26, "cancel": 22, "finish": 28, "timer": 8, "hold": 10, "release": 8, "shutdown": 2},
 		Armed: map[string]bool{"C04": true}}
 	runHistories(t, histOpts{cfg: cfg, failPct: 12,
-		rule: "histories with a high weight of hold/cancel so that cancels land on waiting jobs (with/without pending timer), running jobs with any subset of tasks finished, the gap between two tasks (hold -> finish -> cancel -> release), repeated cancels, finished/canceled/unknown ids; oracle: return value per state, no start after a waiting cancel, Cancel() delivered to the runner of a running job, final report canceled (never a plain success unless every task had succeeded before the ack), finished jobs unchanged; non-trivial = a cancel acknowledged for a running multi-task job while none of its tasks was executing, or for a job with pending delay; distinct by action trace",
+		rule: "histories with a high weight of hold/cancel so that cancels land on waiting jobs (with/without pending timer), running jobs with any subset of tasks finished, the gap between two tasks (hold -> finish -> cancel -> release), repeated cancels, finished/canceled/unknown ids, and cancels that arrive while a graceful shutdown is waiting for the running jobs; oracle: return value per state, no start after a waiting cancel, Cancel() delivered to the runner of a running job, final report canceled (never a plain success unless every task had succeeded before the ack), finished jobs unchanged; non-trivial = a cancel acknowledged for a running multi-task job while none of its tasks was executing, or for a job with pending delay; distinct by action trace",
 		nontrivial: func(c map[string]int) bool {
 			return c["cancel:in-gap"] > 0 || c["cancel:waiting-with-pending-timer"] > 0
 		}})
